@@ -40,6 +40,13 @@ def _seek(ex, st, args, dest_ty, func, where):
     return VEnum("Result", I(0), {0: [VInt(n, "u64")]})
 
 
+def _stream_position(ex, st, args, dest_ty, func, where):
+    ref, cur = _find_place(ex, st, args[0])
+    if not (isinstance(cur, VStruct) and cur.name == "Cursor"):
+        raise Unsupported("stream_position on %r" % (cur,))
+    return VEnum("Result", I(0), {0: [VInt(cur.f[1].t, "u64")]})
+
+
 def _read_exact(ex, st, args, dest_ty, func, where):
     """Cursor::read_exact: fills the whole buffer or fails with UnexpectedEof (buffer then unspecified)"""
     ref, cur = _find_place(ex, st, args[0])
@@ -341,7 +348,7 @@ def _poll_future(ex, st, args, dest_ty, func, where):
     if not (isinstance(fut, VStruct) and fut.name.startswith("Future:")):
         raise Unsupported("poll of %r" % (fut,))
     kind = fut.name.split(":", 1)[1]
-    h = {"seek": _seek, "read_exact": _read_exact, "write_all": _write_all, "read": _read_some}[kind]
+    h = {"seek": _seek, "read_exact": _read_exact, "write_all": _write_all, "read": _read_some, "stream_position": _stream_position}[kind]
     r = h(ex, st, fut.f, dest_ty, func, where)
     if kind == "read_exact":
         # tokio's read_exact yields the number of bytes read
@@ -362,6 +369,8 @@ def install(ex):
     S["StrongHash::from_bytes"] = _strong_from_bytes
     S["StrongHash::as_bytes"] = _strong_as_bytes
     A(r"^<R as (std::io::)?Seek>::seek$", _seek, "Cursor::seek(SeekFrom::Start)")
+    A(r"^<R as (std::io::)?Seek>::stream_position$", _stream_position, "Cursor::stream_position")
+    A(r"^<R as (tokio::io::)?AsyncSeekExt>::stream_position$", _fut("stream_position"), "AsyncSeekExt::stream_position (in-memory, always ready)")
     A(r"^<R as (std::io::)?Read>::read_exact$", _read_exact, "Cursor::read_exact (all or UnexpectedEof)")
     A(r"^<W as (std::io::)?Write>::write_all$", _write_all, "Vec<u8>::write_all (never fails)")
     A(r"^<(&mut )?R as (std::io::)?Read>::take$", _take, "Read::take")
